@@ -5,10 +5,14 @@ import Driver.Util
 Line protocol of C14.
 
 `hist L<0|1> A:<nil|name of the AuthNormalize function> M:<nil|description of the AuthMap table> <op>… | <row>…`
-  (the model only needs to know whether AuthNormalize / AuthMap are nil; the rest is for replay on the Go side)
+  (of the AuthMap the model only needs to know whether it is nil; the rest is for replay on the Go side)
   ops:  `c:<u>:<p>:<b|a|s|x>`  `s:<u>:<p>`  `d:<u>`  `p:<authzid>:<u>:<p>`  `l:<u>:<p>`  `t:<u>:<p>`
         (names: hex code points, passwords: hex bytes)
-  rows: `n:<in>:<out|!>` CompareKey   `a:<in>:<out|!>` AuthNormalize   `m:<in>:<out|!>` AuthMap.Lookup
+        overlapping logins: `B<i>:p:<authzid>:<u>:<p>` `B<i>:l:<u>:<p>` `B<i>:t:<u>:<p>` (or `G<i>:…`) login i starts and reads its row (answer `-`),
+        `E<i>` login i finishes (answer: its verdict), `R<i>` scheduling hint of the harness (answer `-`)
+  rows: `n:<in>:<out|!>` UsernameCaseMapped.CompareKey  `q:` UsernameCasePreserved.CompareKey  `f:` address.PRECISFold
+        `g:` address.PRECIS  `w:<in>:<out>` strings.ToLower  `v:<in>:<0|1>` address.Valid  `m:<in>:<out|!>` AuthMap.Lookup
+        (the AuthNormalize function named by `A:` is composed from these by the model: Model/Auth.lean `normalizeFunc`)
   answer: one token per op — `ok` `e-algo` `e-name` `e-exists` `e-hash` | `ok=<identity>` `fail` `unsup`
   A query that is not in the shipped tables makes the answer `MISSING` (a divergence, never a default).
 
@@ -23,9 +27,13 @@ namespace Driver.C14
 open MaddyVerif.Auth Driver
 
 structure Tabs where
-  n : List (Name × Option Name) := []
-  a : List (Name × Option Name) := []
-  m : List (Name × Option Name) := []
+  n : List (Name × Option Name) := []   -- precis.UsernameCaseMapped.CompareKey
+  q : List (Name × Option Name) := []   -- precis.UsernameCasePreserved.CompareKey
+  f : List (Name × Option Name) := []   -- address.PRECISFold
+  g : List (Name × Option Name) := []   -- address.PRECIS
+  w : List (Name × Option Name) := []   -- strings.ToLower (never `!`)
+  v : List (Name × Bool) := []          -- address.Valid
+  m : List (Name × Option Name) := []   -- AuthMap.Lookup
 
 /-- marker name returned for a query missing from the tables -/
 def missing : Name := [0x10FFFF, 77]
@@ -41,8 +49,31 @@ def parseOut (s : String) : Option (Option Name) :=
 def parseRow (t : Tabs) (tok : String) : Option Tabs :=
   match tok.splitOn ":" with
   | ["n", i, o] => do pure { t with n := (← unhexRunes? i, ← parseOut o) :: t.n }
-  | ["a", i, o] => do pure { t with a := (← unhexRunes? i, ← parseOut o) :: t.a }
+  | ["q", i, o] => do pure { t with q := (← unhexRunes? i, ← parseOut o) :: t.q }
+  | ["f", i, o] => do pure { t with f := (← unhexRunes? i, ← parseOut o) :: t.f }
+  | ["g", i, o] => do pure { t with g := (← unhexRunes? i, ← parseOut o) :: t.g }
+  | ["w", i, o] => do pure { t with w := (← unhexRunes? i, some (← unhexRunes? o)) :: t.w }
+  | ["v", i, "0"] => do pure { t with v := (← unhexRunes? i, false) :: t.v }
+  | ["v", i, "1"] => do pure { t with v := (← unhexRunes? i, true) :: t.v }
   | ["m", i, o] => do pure { t with m := (← unhexRunes? i, ← parseOut o) :: t.m }
+  | _ => none
+
+/-- the library primitives as shipped on the op line (values computed by the real library functions). -/
+def prims (t : Tabs) : NormPrims :=
+  { ucm := look t.n, ucp := look t.q, emailFold := look t.f, emailPres := look t.g,
+    lower := fun u => (look t.w u).getD missing,
+    validEmail := fun u => match t.v.find? (fun p => p.1 == u) with | some p => p.2 | none => false }
+
+def parseKind (a : String) : Option (Option NormKind) :=
+  match a with
+  | "A:nil" => some none
+  | "A:auto" => some (some .auto)
+  | "A:precis_casefold_email" => some (some .precisCasefoldEmail)
+  | "A:precis_casefold" => some (some .precisCasefold)
+  | "A:precis_email" => some (some .precisEmail)
+  | "A:precis" => some (some .precis)
+  | "A:casefold" => some (some .casefold)
+  | "A:noop" => some (some .noop)
   | _ => none
 
 def parseScheme (s : String) : Option (Option Scheme) :=
@@ -63,6 +94,25 @@ def parseOp (tok : String) : Option Op :=
   | ["t", u, p] => do pure (.direct (← unhexRunes? u) (← unhexBytes? p))
   | _ => none
 
+def parseId (s : String) : Option Nat := (s.drop 1).toNat?
+
+/-- `B<i>:<login op>` / `G<i>:<login op>` login i starts and reads its row (the harness then holds it at its hash
+verification / right after the read); `E<i>` it finishes; `R<i>` scheduling hint; anything else is an atomic operation. -/
+def parseEv (tok : String) : Option Ev :=
+  if tok.startsWith "B" || tok.startsWith "G" then
+    match tok.splitOn ":" with
+    | b :: "p" :: rest => do
+      let i ← parseId b
+      match rest with
+      | [a, u, p] => pure (.fetch i (.plain (← unhexRunes? a) (← unhexRunes? u) (← unhexBytes? p)))
+      | _ => none
+    | [b, "l", u, p] => do pure (.fetch (← parseId b) (.login (← unhexRunes? u) (← unhexBytes? p)))
+    | [b, "t", u, p] => do pure (.fetch (← parseId b) (.direct (← unhexRunes? u) (← unhexBytes? p)))
+    | _ => none
+  else if tok.startsWith "E" then (parseId tok).map .finish
+  else if tok.startsWith "R" then (parseId tok).map (fun _ => .yield)
+  else (parseOp tok).map .op
+
 def showMgmt : MgmtRes → String
   | .ok => "ok" | .errAlgo => "e-algo" | .errName => "e-name" | .errExists => "e-exists" | .errHash => "e-hash"
 
@@ -74,12 +124,22 @@ def showOut : Out → String
   | .direct true => "ok"
   | .direct false => "fail"
 
+def showEvOut : EvOut → String
+  | .out o => showOut o
+  | .begun => "-"
+  | .noLogin => "no-login"
+
 def splitBar (toks : List String) : List String × List String :=
   (toks.takeWhile (· ≠ "|"), (toks.dropWhile (· ≠ "|")).drop 1)
 
+def evOp : Ev → Option Op
+  | .op o => some o
+  | .fetch _ o => some o
+  | _ => none
+
 /-- did the run consult a missing table entry?  The marker can only surface through an identity or by
 making a lookup fail, so the tables are checked for completeness up front instead. -/
-def needed (c : Cfg) (ops : List Op) : List (Option Name) :=
+def needed (c : Cfg) (vKnown : Name → Bool) (ops : List Op) : List (Option Name) :=
   ops.flatMap fun op =>
     let auth (u : Name) : List (Option Name) :=
       let n := match c.anorm with | none => some u | some f => f u
@@ -87,23 +147,20 @@ def needed (c : Cfg) (ops : List Op) : List (Option Name) :=
         | some n, some m => m n
         | some n, none => some n
         | none, _ => none
-      [n, m, m.bind c.norm]
+      [if vKnown u then none else some missing, n, m, m.bind c.norm]
     match op with
     | .create u _ _ | .setPw u _ | .delete u | .direct u _ => [c.norm u]
     | .plain _ u _ | .login u _ => auth u
 
 def handleHist (l a m : String) (rest : List String) : String :=
   let (opToks, rowToks) := splitBar rest
-  match opToks.mapM parseOp, rowToks.foldlM parseRow ({} : Tabs) with
-  | some ops, some tabs =>
-    let c : Cfg := {
-      norm := look tabs.n
-      anorm := if a == "A:nil" then none else some (look tabs.a)
-      amap := if m == "M:nil" then none else some (look tabs.m)
-      loginEnabled := l == "L1" }
-    if (needed c ops).any (· == some missing) then "MISSING"
-    else " ".intercalate ((run c Tbl.empty ops).map showOut)
-  | _, _ => "bad-op"
+  match opToks.mapM parseEv, rowToks.foldlM parseRow ({} : Tabs), parseKind a with
+  | some evs, some tabs, some kind =>
+    let c : Cfg := Cfg.ofConfig (prims tabs) kind (if m == "M:nil" then none else some (look tabs.m)) (l == "L1")
+    let vKnown : Name → Bool := fun u => kind != some .auto || tabs.v.any (fun p => p.1 == u)
+    if (needed c vKnown (evs.filterMap evOp)).any (· == some missing) then "MISSING"
+    else " ".intercalate ((runEv c ⟨Tbl.empty, []⟩ evs).map showEvOut)
+  | _, _, _ => "bad-op"
 
 /-- the endpoint of the gate harness: one account `u` with password `p`, compared verbatim
 (no AuthNormalize, no AuthMap), LOGIN enabled or not. -/
